@@ -31,6 +31,25 @@ class StructBase(Check):
         for _ in range(sz["rand"]):
             fn = self.mix if rng.random() < 0.5 else self.opsfn
             yield gen.random_history(rng, real, fn, rng.randint(3, sz["rlen"]))
+        # BLIND histories: nothing is read between the calls (no accessor, no oracle — a view cached by an accessor and
+        # "refreshed when its length changes" stays stale across a removal followed by an addition); one look at the end
+        for _ in range(300 if tier == "quick" else 3000):
+            lines, outs = gen.random_history(rng, real, self.opsfn, rng.randint(2, 4), audit=("obs",), reload_p=0)
+            p = gen.Pool()
+            for l, o in zip(lines, outs):
+                p = p.after(l, o)
+            for _k in range(rng.randint(2, 6)):
+                cands = list(self.opsfn(p))
+                if not cands:
+                    break
+                op = rng.choice(cands)
+                lines.append(op)
+                real.history.append(op)
+                outs.append(real.inner.step(op))          # straight to the adapter: no snapshot, no oracle, no read
+                p = p.after(op, outs[-1])
+            lines.append("obs")
+            outs.append(real.step("obs"))
+            yield lines, outs
         # a hub with well over a hundred links (sizes at which an 'optimised' membership test would switch on):
         # the links attached around the 128th are detached / re-attached / re-pointed from either side
         for _ in range(1 if tier == "quick" else 4):
@@ -250,6 +269,71 @@ class C02(StructBase):
         return None
     opsfn = staticmethod(gen.uni_ops)
     assumptions = C01.assumptions
+
+    def extra_violations(self, stats):
+        """a universe that grows, one member at a time, to several thousand (some members share a uid); at EVERY size one
+        member is taken out, another put in and the first re-added from its own side — so every size at which an
+        'optimised' membership test might switch on or off is crossed in both directions — against a plain list model"""
+        import random as _r
+        from engine import Violation
+        from edgegraph.structure import Vertex
+        rng = _r.Random(2024)
+        u = Universe()
+        model = []
+        spare = [Vertex(uid=7), Vertex(uid=7), Vertex(), Vertex()]
+        out, steps = [], 0
+
+        def check(what):
+            nonlocal steps
+            steps += 1
+            got = u.vertices
+            if len(got) != len(model) or any(a is not b for a, b in zip(got, model)):
+                return "%s: a universe of %d members: members are no longer the expected ordered list (length %d, expected %d)" % (what, len(model), len(got), len(model))
+            return None
+        n = 4400
+        for size in range(n):
+            v = Vertex(uid=7) if size in (5, 900, 3500, 4200) else Vertex()
+            if size % 2:
+                u.add_vertex(v)
+            else:
+                v.add_to_universe(u)
+            model.append(v)
+            if size < 64 or size % 7 == 0 or size in (255, 256, 257, 1023, 1024, 1025, 2047, 2048, 2049, 2999, 3000, 3001, 4095, 4096, 4097, 4098):
+                a1 = model[rng.randrange(len(model))]
+                a2 = model[rng.randrange(len(model))]
+                b1, b2 = spare[size % 4], spare[(size + 1) % 4]
+                m = None
+                for a in (a1, a2):                   # two members out (the second removal happens one size lower)
+                    if any(x is a for x in model):
+                        u.remove_vertex(a)
+                        model.remove(a)
+                        if u in a.universes:
+                            m = "after remove_vertex the vertex still lists the universe"
+                for b in (b1, b2):                   # two others in, while the universe is smaller
+                    u.add_vertex(b)
+                    if not any(x is b for x in model):
+                        model.append(b)
+                for a in (a2, a1):                   # the removed ones come back from their own side
+                    if not any(x is a for x in model):
+                        a.add_to_universe(u)
+                        model.append(a)
+                for x in (a1, a2, b1, b2, model[0]):  # every one of them is a member now: re-adding changes nothing
+                    u.add_vertex(x)
+                    x.add_to_universe(u)
+                m = m or check("size %d, after two removals, two additions, the removed ones re-added from their side, redundant adds" % size)
+                for x in (a1, a2, b1, b2):
+                    if m is None and (x.universes.count(u) != 1):
+                        m = "size %d: a member lists the universe %d times" % (size, x.universes.count(u))
+                for b in (b1, b2):
+                    if any(x is b for x in model):
+                        b.remove_from_universe(u)
+                        model.remove(b)
+                m = m or check("size %d, after the vertex-side removals" % size)
+                if m:
+                    out.append(Violation("oracle", m, ["sweep:large universe: " + m[:80]]))
+                    break
+        stats.extra["large_universe_probe_steps"] = steps
+        return out
 
     @staticmethod
     def seeds():
